@@ -1,6 +1,7 @@
 package main
 
 import (
+	"regexp"
 	"bufio"
 	"encoding/json"
 	"fmt"
@@ -17,52 +18,36 @@ var safetyKinds = map[string]bool{"nil": true, "idx": true, "slice": true, "tass
 	"lib-pre": true, "panic": true, "pre": true, "nocontract": true}
 
 // propsOf attributes an obligation to properties.
+var labelRe = regexp.MustCompile(`(?:^|\.)(C[0-9][0-9](?:,C[0-9][0-9])*)\.`)
+
 var ownContractKinds = map[string]bool{"post": true, "inv-init": true, "inv-keep": true}
 
 func propsOf(ob *Obligation, fnProps []string) []string {
-	// explicit label prefix: ".../post/C11.range-s1#0"
+	// explicit label: ".../post/C11.range-s1#0", ".../pre/<callee>.C09.label#0",
+	// ".../inv-keep/loop0.C08.x#1"; a comma list names several properties
 	parts := strings.Split(ob.Name, "/")
 	if len(parts) >= 2 {
 		what := parts[len(parts)-1]
-		if i := strings.Index(what, "."); i > 0 {
-			pre := what[:i]
-			if k := strings.LastIndex(pre, "loop"); k >= 0 {
-				// loopN.Cxx.label
-				rest := what[i+1:]
-				if j := strings.Index(rest, "."); j > 0 {
-					pre = rest[:j]
-				}
-			}
-			// "C11" or a comma list "C11,C10" (an obligation several properties rest on)
-			var ps []string
-			for _, q := range strings.Split(pre, ",") {
-				if len(q) >= 3 && q[0] == 'C' && isDigits(q[1:]) {
-					ps = append(ps, q)
-				} else {
-					ps = nil
-					break
-				}
-			}
-			if len(ps) > 0 {
-				// A clause of the function's own contract carries every property the
-				// function is listed under (callers of any of them rely on it), the
-				// label's property first; C06 only counts safety obligations and
-				// clauses labelled C06.
-				if ownContractKinds[ob.Kind] {
-					for _, p := range fnProps {
-						dup := p == "C06"
-						for _, q := range ps {
-							if q == p {
-								dup = true
-							}
-						}
-						if !dup {
-							ps = append(ps, p)
+		if m := labelRe.FindStringSubmatch(what); m != nil {
+			ps := strings.Split(m[1], ",")
+			// A clause of the function's own contract carries every property the
+			// function is listed under (callers of any of them rely on it), the
+			// label's property first; C06 only counts safety obligations and
+			// clauses labelled C06.
+			if ownContractKinds[ob.Kind] {
+				for _, p := range fnProps {
+					dup := p == "C06"
+					for _, q := range ps {
+						if q == p {
+							dup = true
 						}
 					}
+					if !dup {
+						ps = append(ps, p)
+					}
 				}
-				return ps
 			}
+			return ps
 		}
 	}
 	if safetyKinds[ob.Kind] {
